@@ -4,6 +4,7 @@ package core
 import (
 	"fmt"
 	"io/ioutil"
+	"math"
 	"reflect"
 
 	"github.com/mattn/anko/env"
@@ -55,6 +56,10 @@ func Import(e *env.Env) *env.Env {
 		arr := []int64{}
 		for i := start; (step > 0 && i < stop) || (step < 0 && i > stop); i += step {
 			arr = append(arr, i)
+			if (step > 0 && i > math.MaxInt64-step) || (step < 0 && i < math.MinInt64-step) {
+				// the next element does not fit int64, so it is past stop
+				break
+			}
 		}
 		return arr
 	})
